@@ -237,7 +237,7 @@ func (e *reuseEngine) Generate(seed uint64, tier string, run int) (json.RawMessa
 		f := rg.Intn(len(c.Faces))
 		runes := cmapRunes(models[f].ft)
 		op := ReuseOp{K: k, F: f}
-		if (k == "shape" || k == "hbshape") && rg.Chance(0.3) {
+		if (k == "shape" || k == "hbshape") && rg.Chance(0.4) {
 			// repeat an earlier call of the same kind verbatim (possibly on another face):
 			// the cache-hit workload for the font cache and the shape-plan cache
 			var prev []int
@@ -248,8 +248,44 @@ func (e *reuseEngine) Generate(seed uint64, tier string, run int) (json.RawMessa
 			}
 			if len(prev) > 0 {
 				op = c.Ops[kernel.Pick(rg, prev)]
-				if rg.Chance(0.3) {
+				// ... or a variant of it in which exactly one argument differs: every argument that a
+				// cache key must contain is varied alone against an otherwise identical earlier call
+				switch rg.Intn(9) {
+				case 0:
 					op.F = f
+				case 1: // same number of features, other value or tag
+					if len(op.Feats) == 0 {
+						op.Feats = []FeatSpec{{Tag: kernel.Pick(rg, someFeatures), Val: 1}}
+					} else {
+						fs := append([]FeatSpec(nil), op.Feats...)
+						j := rg.Intn(len(fs))
+						if rg.Bool() {
+							fs[j].Val = (fs[j].Val + 1) % 3
+						} else {
+							fs[j].Tag = kernel.Pick(rg, someFeatures)
+						}
+						op.Feats = fs
+					}
+				case 2:
+					op.Size = kernel.Pick(rg, sizes)
+				case 3:
+					if k == "shape" {
+						op.Dir = kernel.Pick(rg, validDirections)
+					} else {
+						op.Dir = uint8(kernel.Pick(rg, []int{4, 5, 6, 7}))
+					}
+				case 4:
+					op.Lang = kernel.Pick(rg, someLanguages)
+				case 5:
+					op.Script = uint32(kernel.Pick(rg, []language.Script{language.Arabic, language.Latin, language.Devanagari, language.Han, language.Cyrillic}))
+				case 6:
+					t := []rune(op.Text)
+					if len(t) > 0 && len(runes) > 0 {
+						t[rg.Intn(len(t))] = kernel.Pick(rg, runes)
+						op.Text = string(t)
+					}
+				case 7:
+					op.S, op.E = genBounds(rg, len([]rune(op.Text)))
 				}
 				c.Ops = append(c.Ops, op)
 				continue
